@@ -46,7 +46,7 @@ func (t *runTarget) Evaluate(engine runner.Engine) error {
 	verifPoint("eval.enter", label.String())
 
 	// Copy the current version of the data.
-	t.data = info.Data
+	t.data = info.stamp()
 
 	// Evaluate the target's dependencies.
 	depsUpToDate := true
@@ -130,16 +130,24 @@ func (t *runTarget) Evaluate(engine runner.Engine) error {
 		return err
 	}
 
-	// Save the target's metadata.
+	// Save the target's metadata. Each successful run gets a fresh run ID so that dependents
+	// observe the run even if they are built by a later invocation.
 	t.changed = changed
-	if changed {
-		t.data = data
-	}
-	err = proj.saveTargetInfo(label, targetInfo{
+	newInfo := targetInfo{
 		Doc:          t.target.Doc(),
 		Dependencies: depData,
-		Data:         t.data,
-	})
+		Data:         info.Data,
+		Run:          info.Run,
+	}
+	if changed {
+		newInfo.Data = data
+		if _, isSource := t.target.(*sourceFile); !isSource {
+			// A source file's stamp is its content hash and already identifies what dependents saw.
+			newInfo.Run = newRunID()
+		}
+	}
+	t.data = newInfo.stamp()
+	err = proj.saveTargetInfo(label, newInfo)
 	if err != nil {
 		proj.events.TargetFailed(label, err)
 		return err
